@@ -23,7 +23,10 @@ from harness.par import pmap
 
 OPTS_S = [dict(width=88, semantic=False, cleanups=False), dict(width=0, semantic=True, cleanups=False)]
 # documents evaluated on every run in addition to the bounded enumeration (witnesses of open findings beyond the bound)
-WITNESS_S = [("Lt(", "I(", "Lt(", "I(", "P", ")", "I(", "P", ")", ")", ")", ")")]
+WITNESS_S = [("Lt(", "I(", "Lt(", "I(", "P", ")", "I(", "P", ")", ")", ")", ")"),
+             # D44 beyond the quick bound: a loose list as a later block of an item of a tight list / opening a later item of a tight list
+             ("Lt(", "I(", "P", "Ll(", "I(", "P", ")", "I(", "P", ")", ")", ")", ")"),
+             ("Lt(", "I(", "P", ")", "I(", "Ll(", "I(", "P", ")", "I(", "P", ")", ")", ")", ")")]
 D1_FIXED = True     # TRUE once the escape set of markdown_escape_word covers the 'x' words below
 
 T_CONTAINERS = [  # (name, source first-line prefix, rendered first prefix, rendered continuation prefix)
@@ -195,6 +198,11 @@ def run(tier: str) -> int:
         elif predicted and docs.list_first_in_item(m["toks"]) and "D6" in chk.open_findings:
             chk.known_finding("D6", info)
             stats["D6"] += 1
+        elif predicted and "D44" in chk.open_findings and _d44_any(m["src"]):
+            # D44 (either face) beyond the pair / container families: the as-is renderer machine emits exactly the observed lines (so a change
+            # of the separator logic is not excused) and the source has the shape of the finding
+            chk.known_finding("D44", info)
+            stats["D44"] = stats.get("D44", 0) + 1
         else:
             chk.violation(clause, info)
     chk.notes["family_S"] = stats
@@ -297,6 +305,12 @@ def eval_c(job):
     r.update(src=x, opts=opts, pair=[cname + ("+lead" if lead else ""), na])
     r.pop("mdit_tree_in", None)
     return r
+
+
+def _d44_any(src: str) -> bool:
+    from harness.props import c02
+    tree = project.parse_marko(src)
+    return c02.d44_shape(tree) or c02.d44_first_shape(tree, any_enclosing=True)
 
 
 def d44_first_shape(tree, any_enclosing=True) -> bool:
